@@ -8,6 +8,12 @@ BUILTIN = {'ASCII_ALPHA': ALPHA, 'ASCII_ALPHANUMERIC': ALPHA | DIGIT, 'ASCII_DIG
            'ASCII_ALPHA_LOWER': set('abcdefghijklmnopqrstuvwxyz'), 'ASCII_ALPHA_UPPER': set('ABCDEFGHIJKLMNOPQRSTUVWXYZ')}
 
 
+
+def json_str(v):
+    import json as _j
+    return _j.dumps(v, ensure_ascii=False)
+
+
 class Grammar:
     def __init__(self, rules):
         self.G = {r['name']: r for r in rules}
@@ -462,6 +468,117 @@ class Grammar:
         return {n: '%s: %s' % (r['ty'], txt(r['e'], frozenset([n]))) for n, r in self.G.items() if n not in silent}
 
 
-def json_str(v):
-    import json as _j
-    return _j.dumps(v, ensure_ascii=False)
+    def first_literals(self, e, seen=()):
+        """String literals an expression can begin with (through rule references, look-aheads skipped)."""
+        k = e['k']
+        if k == 'str':
+            return {e['v']}
+        if k == 'ident':
+            if e['v'] in self.G and e['v'] not in seen:
+                return self.first_literals(self.G[e['v']]['e'], seen + (e['v'],))
+            return set()
+        if k == 'seq':
+            for part in self.flatten_seq(e):
+                if part['k'] in ('neg', 'pos'):
+                    continue
+                return self.first_literals(part, seen)
+            return set()
+        if k == 'choice':
+            out = set()
+            for alt in self.flatten_choice(e):
+                out |= self.first_literals(alt, seen)
+            return out
+        return set()
+
+    def first_literals_with_next(self, e, seen=()):
+        """[(literal the expression can begin with, first-character set of what follows it in its sequence or None)]."""
+        k = e['k']
+        if k == 'str':
+            return [(e['v'], None)]
+        if k == 'ident':
+            if e['v'] in self.G and e['v'] not in seen:
+                return self.first_literals_with_next(self.G[e['v']]['e'], seen + (e['v'],))
+            return []
+        if k == 'seq':
+            parts = [q for q in self.flatten_seq(e) if q['k'] not in ('neg', 'pos')]
+            if not parts:
+                return []
+            head = self.first_literals_with_next(parts[0], seen)
+            if len(parts) > 1:
+                f, n = self.first_set(parts[1])
+                return [(lit, after if after is not None else f) for lit, after in head]
+            return head
+        if k == 'choice':
+            out = []
+            for alt in self.flatten_choice(e):
+                out += self.first_literals_with_next(alt, seen)
+            return out
+        return []
+
+    def role_continuation(self, e, idrules, seen=()):
+        """First-character set of what follows the identifier role an expression begins with (None: nothing follows /
+        unknown)."""
+        k = e['k']
+        if k == 'ident' and e['v'] not in idrules and e['v'] in self.G and e['v'] not in seen:
+            return self.role_continuation(self.G[e['v']]['e'], idrules, seen + (e['v'],))
+        if k == 'seq':
+            parts = [p for p in self.flatten_seq(e)]
+            for i, part in enumerate(parts):
+                if part['k'] in ('neg', 'pos'):
+                    continue
+                if self.starts_with_ident(part, idrules) is None:
+                    return None
+                inner = self.role_continuation(part, idrules, seen)
+                if inner is not None:
+                    return inner
+                rest = [q for q in parts[i + 1:] if q['k'] not in ('neg', 'pos')]
+                if not rest:
+                    return None
+                f, n = self.first_set(rest[0])
+                return f
+        return None
+
+    def fused_capture(self):
+        """RF-G(iv). An alternative that begins with a literal `w…` whose identifier-shaped prefix w is followed by a
+        non-identifier character (`Left(`) comes before an alternative that begins with an identifier role followed by that
+        character (`function_name ~ "(" …`): the text `w(…` meant for the later alternative is taken by the earlier one, so
+        the role has to exclude w.  Returns (positions, findings = (rule, literal, later alternative, role, w))."""
+        idrules = set(self.ident_rules())
+        positions, findings = [], []
+
+        def desc(a):
+            return a.get('v', a['k'])
+
+        def scan(name, e):
+            k = e['k']
+            if k == 'choice':
+                alts = self.flatten_choice(e)
+                for j, alt in enumerate(alts):
+                    r = self.ident_exclusions(alt, idrules)
+                    if not r:
+                        continue
+                    cont = self.role_continuation(alt, idrules)
+                    if not cont:
+                        continue
+                    for prev in alts[:j]:
+                        for lit, after in self.first_literals_with_next(prev):
+                            m = 0
+                            while m < len(lit) and lit[m] in IDC:
+                                m += 1
+                            w, rest = lit[:m], lit[m:]
+                            nxt = {rest[0]} if rest else (after or set())
+                            if not w or w[0] not in ALPHA or not (nxt & cont):
+                                continue
+                            positions.append((name, lit, desc(alt), r[0]))
+                            if w not in r[1]:
+                                findings.append((name, lit, desc(alt), r[0], w))
+                for alt in alts:
+                    scan(name, alt)
+            elif k == 'seq':
+                scan(name, e['a'])
+                scan(name, e['b'])
+            elif k in ('opt', 'rep', 'rep1', 'pos', 'neg'):
+                scan(name, e['e'])
+        for name in self.order:
+            scan(name, self.G[name]['e'])
+        return list(dict.fromkeys(positions)), list(dict.fromkeys(findings))
